@@ -300,8 +300,25 @@ def run_scenario(sc, channel_patch=None):
                 raise HarnessError("close of a channel that carries data in this scenario")
             await app0.channel_for(ch).disconnect()
 
+        async def drain_close_job(c):
+            # the documented way to finish a transfer: write, await drain(), disconnect.  Whatever was written before
+            # the drain must reach the peer although the channel is closed right after drain() returns
+            ch = wire.chans[c["ch"]]
+            if sc["writes"][ch.idx][1]:
+                raise HarnessError("drain-close on a channel whose peer writes too")
+            wr = writer(0, ch)
+            for delay, size in c["plan"]:
+                if delay:
+                    await asyncio.sleep(delay)
+                wr(stream_bytes(sc["seed"], ch.idx, 0, size))
+            channel = app0.channel_for(ch)
+            await channel.drain()
+            await channel.disconnect()
+
         for c in sc.get("close", []):
             jobs.append(close_job(c))
+        for c in sc.get("drain_close", []):
+            jobs.append(drain_close_job(c))
         await asyncio.gather(*jobs)
         state["phase"] = "settle"
 
